@@ -74,7 +74,7 @@ PROPS = {
     "C08": P(q=50, workloads="mq-wake: consumers blocked in recv / recv_view / blocking iterators under Busy / Yielding / Blocking strategies with default and zero spins; Miri slice (deadlock detector)"),
     "C09": P(q=200, t=2000, assumptions=SEQ_ASSUME, workloads="mq-seq random sequences of 300 calls over all eight handle families + exhaustive enumeration of a 14-command alphabet; Miri slice for UB on sequential paths"),
     "C10": P(workloads="mq-conc add-stream-sole and add-stream-shared with stalls between snapshot and publication"),
-    "C11": P(workloads="mq-conc remove-stream (producers refused against a slow stream that is then removed) + mq-seq unsubscribe results"),
+    "C11": P(workloads="mq-conc remove-stream (producers refused against a slow stream that is then removed, optionally racing an add_stream on another stream), no-receiver with simultaneous unsubscribes, mq-seq unsubscribe results, mq-fut scenarios in which a receiver leaves while a sink is parked"),
     "C12": P(workloads="mq-conc handle-churn: senders 1->2->1, consumers of a stream 1->2->1 via clone/drop/unsubscribe/into_single/into_multi during traffic"),
     "C13": P(q=50, workloads="mq-seq (every order of dropping receivers, all sender flavours), mq-conc no-receiver (last receiver leaves while producers send), mq-fut (sink parked while the last receiver is dropped)"),
     "C14": P(q=50, workloads="mq-fut: sink and stream tasks polled only when notified, receivers draining through poll / direct methods / being dropped, probe-poll at quiescence"),
@@ -102,7 +102,8 @@ def jobs_for(prop, tier, seed):
     ms, mt = t["miri_seeds"], t["miri_timeout"]
     J = []
     if prop == "C01":
-        J += conc(prop, seed, ["steady", "view", "quiesce", "teardown-orders", "handle-churn", "last-sender", "add-stream-sole"], n, s)
+        J += conc(prop, seed, ["steady", "view", "quiesce", "teardown-orders", "handle-churn", "last-sender", "add-stream-sole"], n - 1, s)
+        J += conc(prop, seed, ["steady", "handle-churn"], 1, s, label="long", base=80, extra=[["--long"]])
         J.append(miri(prop, seed, "steady", ["conc", "--families", "steady,view", "--runs", "2", "--fl", "broadcast"], ms, mt, {"*": "C01,C04,C16"}))
     elif prop == "C02":
         J += conc(prop, seed, ["steady", "view", "quiesce", "last-sender"], n, s,
@@ -140,10 +141,14 @@ def jobs_for(prop, tier, seed):
         J += conc(prop, seed, ["add-stream-sole"], n // 2, s)
         J += conc(prop, seed, ["add-stream-shared"], n - n // 2, s, label="shared", base=40)
     elif prop == "C11":
-        J += conc(prop, seed, ["remove-stream"], n - 2, s)
+        J += conc(prop, seed, ["remove-stream", "remove-stream", "no-receiver"], n - 5, s)
         J += shard_jobs(prop, seed, ["seq", "--cfgs", "broadcast"], 2, s, "seq", base=100)
+        J += shard_jobs(prop, seed, ["fut"], 3, s, "fut", base=60)
     elif prop == "C12":
-        J += conc(prop, seed, ["handle-churn"], n, s)
+        J += conc(prop, seed, ["handle-churn"], n - 4, s)
+        # long free-running executions: windows that contain no hook site are only reachable through
+        # natural pre-emption on the (deliberately oversubscribed) machine
+        J += conc(prop, seed, ["handle-churn"], 4, s, label="long", base=80, extra=[["--long"]])
         J.append(miri(prop, seed, "churn", ["conc", "--families", "handle-churn", "--runs", "2", "--fl", "broadcast"], ms, mt, {"*": "C12,C04,C16"}, base=31))
     elif prop == "C13":
         J += shard_jobs(prop, seed, ["seq"], 4, s, "seq", base=100)
